@@ -258,9 +258,35 @@ func TestVerifCodec(t *testing.T) {
 	}
 	codec := GetCodec()
 	stats := map[string]int{}
+	// gRPC hands the codec the wire bytes in one or several buffers (one per HTTP/2 DATA frame for messages above 16KB):
+	// every decode is done for five ways of cutting the same bytes and the outcomes must be the same
+	segment := func(data []byte, k int) mem.BufferSlice {
+		cp := func(b []byte) mem.Buffer { return mem.SliceBuffer(append([]byte{}, b...)) }
+		n := len(data)
+		switch k {
+		case 1:
+			return mem.BufferSlice{cp(data[:n/2]), cp(data[n/2:])}
+		case 2:
+			return mem.BufferSlice{cp(data[:n/3]), cp(data[n/3 : 2*n/3]), cp(data[2*n/3:])}
+		case 3:
+			return mem.BufferSlice{cp(nil), cp(data)}
+		case 4:
+			if n > 1 {
+				return mem.BufferSlice{cp(data[:1]), cp(data[1:])}
+			}
+		}
+		return mem.BufferSlice{cp(data)}
+	}
 	decode := func(mt protoreflect.MessageType, data []byte) (proto.Message, error) {
 		m := mt.New().Interface()
-		err := codec.Unmarshal(mem.BufferSlice{mem.SliceBuffer(data)}, m)
+		err := codec.Unmarshal(segment(data, 0), m)
+		for k := 1; k <= 4; k++ {
+			mk := mt.New().Interface()
+			errk := codec.Unmarshal(segment(data, k), mk)
+			if (errk == nil) != (err == nil) || (err == nil && !proto.Equal(m, mk)) {
+				fmt.Fprintf(w, "CODEC %s segmentation %d of the same %d wire bytes decodes differently (one buffer: err=%v; cut: err=%v)\n", mt.Descriptor().Name(), k, len(data), err, errk)
+			}
+		}
 		return m, err
 	}
 	std := func(mt protoreflect.MessageType, data []byte) (proto.Message, error) {
